@@ -452,6 +452,11 @@ func (w *Writer) ReadFrom(src io.Reader) (n int64, err error) {
 
 		w.n += nn
 		n += int64(nn)
+		if nn > 0 {
+			// Buffered bytes belong to the current message even if src fails
+			// later: the next Flush() must terminate it.
+			w.dirty = true
+		}
 	}
 	if err == io.EOF {
 		// NOTE: Do not flush preemptively.
